@@ -32,6 +32,7 @@ RULE = (
     "over the columns of an existing sort, rows tie under the new terms): the reference model treats a stable sort "
     "of a determined list in an iteration engine as determined, so their row order is compared exactly. "
     "  A third of the directed sort-over-sort requests repeat a term of the existing sort with the opposite direction; final requests may be user-defined operations (iteration preferred engines only); bases contain user-defined markers. "
+    "  Joins are compared with the join applied at the root after an explicit transfer of the target into the fixed operand's engine (no backtracking involved); 4 % of the cases are directed joins through Join.partial(fixed, is_lhs) whose target has projected away a (key or non-key) column that the fixed operand exposes. "
 )
 ASSUMPTIONS = [
     "reference model vmon/model.py, interpreter vmon/interp.py, SQLite + SQLAlchemy, real Processor subclass vmon/dbx.py",
